@@ -228,6 +228,7 @@ def gen_scenario(s: Choices, cls, cfg):
         lens = [b - a for a, b in zip([0] + cuts, cuts + [n])]
         sc["exec"] = ["chunked_values", lens, 1 + s.draw(3)]
     sc["workers"] = s.weighted([(5, None), (2, 1), (2, 2), (1, 3), (1, 5)])
+    sc["return_count"] = not s.chance(1, 3)
     # fault plan
     if cfg.get("fault_mode"):
         kind = s.weighted([(3, "task_fail_before"), (3, "task_fail_after"), (2, "spawn_fail")])
@@ -424,7 +425,7 @@ def _build_inputs(sc):
     return codes, values, mask
 
 
-def _call(kernel, codes, values, ngroups, mask, n_threads):
+def _call(kernel, codes, values, ngroups, mask, n_threads, return_count=True):
     from groupby_lib.groupby import numba as nbf
 
     with warnings.catch_warnings():
@@ -434,6 +435,10 @@ def _call(kernel, codes, values, ngroups, mask, n_threads):
                 r = nbf.group_size(codes, ngroups, mask=mask, n_threads=n_threads)
                 return r, r
             f = getattr(nbf, f"group_{kernel}")
+            if not return_count:
+                # the form most callers use: only the reduced values come back
+                r = f(codes, values, ngroups, mask=mask, n_threads=n_threads)
+                return r, np.full(len(np.asarray(r)), -1, dtype=np.int64)
             return f(codes, values, ngroups, mask=mask, n_threads=n_threads, return_count=True)
 
 
@@ -499,7 +504,8 @@ def execute(sc, sched: Choices, cls, cfg):
 
     # ---- single pass under the null context (no pool can be created) ----
     executor.set_context(None)
-    single = _outcome(lambda: _call(kernel, codes, values, ngroups, mask, 1))
+    rc = sc.get("return_count", True)
+    single = _outcome(lambda: _call(kernel, codes, values, ngroups, mask, 1, rc))
 
     # ---- oracle (i): reference model ----
     try:
@@ -525,7 +531,7 @@ def execute(sc, sched: Choices, cls, cfg):
         elif exact:
             if not lists_same(single[1], res_ref, tol):
                 add(dict(site_base, check="ref", outcome="value_diff"), res_ref, single[1])
-            elif cnt_ref[0:1] != [None] and kernel != "last" and single[2] != cnt_ref:
+            elif rc and cnt_ref[0:1] != [None] and kernel != "last" and single[2] != cnt_ref:
                 add(dict(site_base, check="ref_count", outcome="value_diff"), cnt_ref, single[2])
 
     # ---- block-wise under the simulated pool ----
@@ -545,7 +551,7 @@ def execute(sc, sched: Choices, cls, cfg):
         n_threads = ex[2]
     ctx = executor.SimContext(sched=sched, workers=sc["workers"], cpu_count=4, fault=sc["fault"], monitor=True)
     with executor.use_context(ctx):
-        block = _outcome(lambda: _call(kernel, codes, bw_values, ngroups, mask, n_threads))
+        block = _outcome(lambda: _call(kernel, codes, bw_values, ngroups, mask, n_threads, rc))
     rec["ticks"] = ctx.ticks
     rec["interleavings"] = ctx.interleavings()
     rec["events"] = ctx.event_digest()
